@@ -386,7 +386,10 @@ def analyse(hist, rm: RM, outcome, cfg=None, want=None) -> Analysis:
                     if m > until:
                         A.add(V("C07", "exceeds_until", sid=sid, tau=st.tau, max_advance=m,
                                 until=until, q=q))
-                    if not rm.has_trigger_input[sid] and m != until and not cfg.get("rt_factor"):
+                    if not rm.has_trigger_input[sid] and m != until and \
+                            not (cfg.get("rt_factor") and sid in _event_sids(rm)):
+                        # (real-time mode: a simulator for which set_event steps may already be booked
+                        # is promised less than `until`, sensibly; everybody else still gets `until`)
                         A.add(V("C07", "not_until_without_triggers", sid=sid, tau=st.tau,
                                 max_advance=m, until=until, q=q))
                     if m < st.time:
@@ -471,6 +474,8 @@ def analyse(hist, rm: RM, outcome, cfg=None, want=None) -> Analysis:
                 if x.tau[0] <= t:
                     continue
                 causes = dem[sid].get(x.tau, [])
+                if any(c[0] == "event" for c in causes):
+                    continue        # (external events of real-time mode: nobody can foresee them)
                 dep = [_dependent(c, sid, t, steps, dem, {}) for c in causes]
                 if causes and not any(dep):
                     A.add(V("C07", "broken_promise", sid=sid, tau=st.tau, max_advance=m,
@@ -487,6 +492,17 @@ def analyse(hist, rm: RM, outcome, cfg=None, want=None) -> Analysis:
 
 def _j(x):
     return list(x) if isinstance(x, tuple) else x
+
+
+def _event_sids(rm):
+    """Simulators for which steps may be booked with set_event (real-time mode)."""
+    r = getattr(rm, "_event_sids", None)
+    if r is None:
+        r = {s["sid"] for s in rm.sims
+             if s.get("set_events") or s.get("events")
+             or any(c.get("kind") == "set_event" for c in (s["beh"].get("async_calls") or ()))}
+        rm._event_sids = r
+    return r
 
 
 def _dependent(cause, sid, t, steps, dem, memo) -> bool:
